@@ -231,6 +231,34 @@ def exec_op(op, objs):
 
 
 # ----------------------------------------------------------------------------- environment / faults
+class _ScipyLstsqProxy:
+    """Stand-in for the module attribute `sp` of darsia.utils.andersonacceleration: the k-th least-squares solve of the
+    Anderson mixing inside a distance call breaks down (LinAlgError), as it does for rank-deficient histories."""
+
+    class _Linalg:
+        def __init__(self, outer):
+            self._o = outer
+
+        def __getattr__(self, n):
+            return getattr(self._o._real.linalg, n)
+
+        def lstsq(self, *a, **k):
+            o = self._o
+            i = o.count
+            o.count += 1
+            if i == o.at and not o.fired:
+                o.fired = True
+                raise np.linalg.LinAlgError("SVD did not converge in Linear Least Squares (injected)")
+            return o._real.linalg.lstsq(*a, **k)
+
+    def __init__(self, real, at):
+        self._real, self.at, self.count, self.fired = real, at, 0, False
+        self.linalg = _ScipyLstsqProxy._Linalg(self)
+
+    def __getattr__(self, n):
+        return getattr(self._real, n)
+
+
 class _Interrupt:
     """Class-level wrapper on Jacobi._neighbor_accumulation raising KeyboardInterrupt at the n-th call."""
 
@@ -340,6 +368,7 @@ def child_history(case, schedule, with_faults=True, reseed=None):
     # force must see the same state
     np.random.seed(base_rng_seed(case))
     amg_proxy = amg_real = None
+    sp_proxy = sp_real = None
     for step, c in enumerate(schedule):
         op = case["clients"][c][pcs[c]]
         pcs[c] += 1
@@ -355,6 +384,13 @@ def child_history(case, schedule, with_faults=True, reseed=None):
                     from engines.c17_no_mutation import _PyamgProxy
                     amg_proxy = _PyamgProxy(wm.pyamg, f["occurrence"])
                     amg_real, wm.pyamg = wm.pyamg, amg_proxy
+                elif f["step"] == step and f.get("kind") == "lstsq-raise":
+                    if op["op"] == "W1":
+                        import darsia.utils.andersonacceleration as am
+                        if not hasattr(am, "sp"):
+                            raise HarnessError("seam missing: darsia.utils.andersonacceleration.sp")
+                        sp_proxy = _ScipyLstsqProxy(am.sp, f["occurrence"])
+                        sp_real, am.sp = am.sp, sp_proxy
                 elif f["step"] == step:
                     intr.arm(f["occurrence"], "w1" if op["op"] == "W1" else f.get("site", "jacobi"))
         try:
@@ -364,6 +400,11 @@ def child_history(case, schedule, with_faults=True, reseed=None):
         except Exception as e:  # noqa
             r, exc = None, type(e).__name__
         fired = intr.fired
+        if sp_proxy is not None:
+            import darsia.utils.andersonacceleration as am
+            am.sp = sp_real
+            fired = fired or sp_proxy.fired  # the faulted step promises nothing about its own value
+            sp_proxy = None
         if amg_proxy is not None:
             import darsia.measure.wasserstein as wm
             wm.pyamg = amg_real
@@ -710,6 +751,11 @@ class C16Engine(Engine):
             # the k-th multigrid set-up of a distance call fails (after drawing its random vectors); inside the iteration
             # the library handles the failure and the call returns
             faults.append({"step": fl.randint(0, len(order) - 1), "occurrence": fl.randint(1, 3), "kind": "amg-setup-raise"})
+            w1_steps = [i for i, c_ in enumerate(order) if self._op_at(clients, order, i)["op"] == "W1"
+                        and objects[self._op_at(clients, order, i)["obj"]]["cfg"].get("aa_depth")]
+            if w1_steps and fl.random() < 0.6:
+                # the k-th least-squares solve of the Anderson mixing of an accelerated distance call breaks down
+                faults[-1] = {"step": fl.choice(w1_steps), "occurrence": fl.randint(0, 2), "kind": "lstsq-raise"}
         envp = []
         if cfg.random() < 0.5:
             for _ in range(env.randint(1, 3)):
